@@ -33,6 +33,7 @@ pub fn ln_stub(x: f32) -> f32 {
             i += 1;
         }
         let v: f32 = kani::any();
+        kani::assume(v.is_finite()); // ln of a positive finite argument is a finite number
         kani::assume(LN_N < 8);
         LN_ARGS[LN_N] = x;
         LN_VALS[LN_N] = v;
